@@ -6,7 +6,7 @@
    generated request by the correspondence run (oracle c13_holds). *)
 From Coq Require Import List Arith Bool Permutation String ZArith.
 From GW Require Import Base.Res Base.GoStr Base.Json Gql.Syntax Gw.ExecLTS Gw.Points Gw.Locate
-     Gw.Plan Proofs.ExecLTSProofs Proofs.ExecLTSConserve Proofs.CodecProofs Proofs.PointsProofs Proofs.FindProofs Proofs.RouteProofs Proofs.PlanProofs.
+     Gw.Plan Proofs.ExecLTSProofs Proofs.ExecLTSConserve Proofs.CodecProofs Proofs.PointsProofs Proofs.FindProofs Proofs.RouteProofs Proofs.PlanProofs Gw.Plan2 Proofs.Plan2Proofs.
 Import ListNotations.
 Open Scope string_scope.
 Open Scope list_scope.
@@ -50,6 +50,13 @@ Theorem C13_one_group_per_location : forall prios urls sels ptype ploc gs,
   group prios urls ptype ploc sels [] = Ok gs -> NoDup (map fst gs).
 Proof. exact group_levels_are_disjoint. Qed.
 Print Assumptions C13_one_group_per_location.
+
+(* ... the same in the full planner model, for every mix of fields, inline fragments and named
+   fragment spreads, whatever the step's and the document's fragment definitions are *)
+Theorem C13_one_group_per_location_with_fragments : forall prios urls planfrags sels sfrags ptype ploc r,
+  group2 prios urls planfrags sfrags ptype ploc sels [] [] = Ok r -> NoDup (map fst (fst r)).
+Proof. intros prios urls planfrags sels sfrags ptype ploc r. apply group2_one_per_location. constructor. Qed.
+Print Assumptions C13_one_group_per_location_with_fragments.
 
 (* no needless hop: with no priorities configured, a selection all of whose fields are offered by
    the location it starts at (the service answering the root field) is planned entirely there *)
